@@ -42,6 +42,7 @@ CTX = [("int", dict(type="int", size=None, nullable=True, default=None)),
        ("int DEFAULT 1", dict(type="int", size=None, nullable=True, default=1)),
        ("int PRIMARY KEY", dict(type="int", size=None, nullable=False, default=None))]
 
+REJECTED = ['ALTER TABLE ONLY r0 ADD CONSTRAINT "r0_chk" CHECK ((("Value" ^ 2.0) < 100.0));', "CREATE VIEW rv AS SELECT a FROM r0 WHERE (b ^ 2) > 100;"]
 POS = ["S", "T", "C1", "C2", "C3", "K1", "K2", "K3", "RS", "RT", "RC", "IX", "K4", "Q", "TY", "D", "IK"]
 BASE = {"S": "sc", "T": "tb", "C1": "ca", "C2": "cb", "C3": "cc", "K1": "ka", "K2": "kb", "K3": "kc", "RS": "rs", "RT": "rt", "RC": "rc",
         "IX": "ix", "K4": "kd", "Q": "sq", "TY": "ty", "D": "dm", "IK": "ik"}
@@ -153,6 +154,10 @@ def gen_cases(tier):
                             # one column per line: the keyword-named column then starts a line (GO USE INSERT GRANT DELETE and the
                             # statement words are excluded by the property's own proviso)
                             cases.append({"kind": "kw", "kw": kw, "form": f, "pos": p, "ctx": ci, "listed": listed, "excluded": kw in EXCL, "lines": True})
+                        if listed is None and ci in (0, 1) and f in "Ul":
+                            # wave 8: the table directly behind a statement the lexer rejects half-way (pg_dump CHECK with '^', a view)
+                            for ri in range(len(REJECTED)):
+                                cases.append({"kind": "kw", "kw": kw, "form": f, "pos": p, "ctx": ci, "listed": listed, "excluded": kw in EXCL, "rej": ri})
                         if p >= 1 and ci in (0, 1) and f in "Ul":
                             # the same, with a CHECK clause on the column before it (a lexer flag set by CHECK must not outlive the clause)
                             cases.append({"kind": "kw", "kw": kw, "form": f, "pos": p, "ctx": ci, "listed": listed, "excluded": kw in EXCL, "chk": True})
@@ -265,6 +270,8 @@ def kw_ddl(case):
     if case["listed"] == "uq":
         extra = ", UNIQUE (%s, %s)" % (other, name)
     tail = "\nCREATE INDEX ix1 ON t (%s, %s DESC);" % (other, name) if case["listed"] == "ix" else ""
+    if case.get("rej") is not None:
+        return REJECTED[case["rej"]] + "\nCREATE TABLE t (%s%s);" % (", ".join(cols), extra) + tail, name, other
     if case.get("lines"):
         return "CREATE TABLE t (\n  %s%s\n);" % (",\n  ".join(cols), extra) + tail, name, other
     return "CREATE TABLE t (%s%s);" % (", ".join(cols), extra) + tail, name, other
